@@ -206,6 +206,22 @@ def one_case(ctx, rng, idx, probe=False):
         other_kw['temporal_format_property'] = 'outputFormat' if not tfp else 'noSuchProperty'
     if second == 'before':
         steps.append(DF.dump_to_path(base + '-other', **other_kw))
+    # rows travel by reference: a later step that edits them in place must not reach what has been dumped
+    scrub_after = rng.random() < 0.3
+    recorded = []
+    if scrub_after:
+        def recorder(package):
+            yield package.pkg
+            for res in package:
+                lst = []
+                recorded.append(lst)
+
+                def it(res=res, lst=lst):
+                    for r in res:
+                        lst.append(copy.deepcopy(r))
+                        yield r
+                yield it()
+        steps.append(recorder)
     if target == 'path':
         steps.append(DF.dump_to_path(base, **kw))
     else:
@@ -213,7 +229,12 @@ def one_case(ctx, rng, idx, probe=False):
         steps.append(DF.dump_to_zip(os.path.join(base, 'o.zip'), **kw))
     if second == 'after':
         steps.append(DF.dump_to_path(base + '-other', **other_kw))
-    case = {'format': fmt, 'second_dumper': [second, other_kw] if second else None, 'target': target, 'add_filehash_to_path': filehash, 'temporal_format_property': tfp,
+    if scrub_after:
+        def scrub(row):
+            for k in list(row):
+                row[k] = None
+        steps.append(scrub)
+    case = {'format': fmt, 'a_later_step_blanks_every_row_in_place': scrub_after, 'second_dumper': [second, other_kw] if second else None, 'target': target, 'add_filehash_to_path': filehash, 'temporal_format_property': tfp,
             'row_key_order': key_order, 'incoming_encoding': src_encoding, 'emptied_resources': emptied,
             'resources': [{'fields': f, 'rows': canon._plain(r)} for f, r in resources], 'probe': probe}
     try:
@@ -223,6 +244,8 @@ def one_case(ctx, rng, idx, probe=False):
         rep.case('dump', case, nontrivial=False)
         rep.fail('dump-raises', case, repr(e)[:300])
         return
+    if scrub_after:
+        entered = recorded
     rep.case(('probe:' if probe else '') + 'roundtrip:%s:%s' % (fmt, target), case)
     rep.hist('format', fmt)
     for fields, _ in resources:
